@@ -176,13 +176,13 @@ def run(ctx):
     # respond passes `method == Head` as do_not_send_body
     RM = RR.rmodel(facts)
     respond = RM.methods["respond"]
-    METHF = [x["name"] for x in facts.adt(REQ)["variants"][0]["fields"] if x["ty"] == METHOD]
+    METHF = shared.find_slot_paths(facts, REQ, "^" + re.escape(METHOD) + "$")
     okhd = False
     detail = None
     if len(METHF) == 1:
         res = {}
         for meth in ("Head", "Get"):
-            fr, ps2 = RM.run(respond, extra={(2,): RR.RESPONSE, RM.key(RM.self_base(respond), (METHF[0],)): ("agg", METHOD, meth, {})},
+            fr, ps2 = RM.run(respond, extra={(2,): RR.RESPONSE, RM.key(RM.self_base(respond), METHF[0]): ("agg", METHOD, meth, {})},
                              on_call=lambda bb, t, args, st: method_eq(bb, t, args, st))
             vals = set()
             for p in ps2:
